@@ -15,6 +15,7 @@ class Spec(simcheck.SimSpec):
                 {'label': 'malformed-returns', 'family': 'malformed'},
                 {'label': 'unmergeable-updates', 'family': 'unmergeable'},
                 {'label': 'tasks-calling-sys-exit', 'family': 'exiting'},
+                {'label': 'tasks-echoing-their-entry', 'family': 'echo'},
                 # results of an earlier run in the environment: dependencies
                 # that are re-executed must still finish first
                 {'label': 'initial-env-done', 'family': 'well',
